@@ -38,14 +38,14 @@ CLAIMED["C01"] = dict(
           "token sequence (loop step clauses); path.search slices and indexes safely, takes a variable edge only after a slash token, binds the k-th capture "
           "to the k-th template variable (depth ghost) and terminates; path.match composes them. The well-formedness of variable patterns that the matcher relies on is established by construction: "
           "addRule passes only patterns of the shape segment ('/' segment)* to addVariable (from the template automaton) and a new variable node is created with that pattern and a non-nil subtree; "
-          "parseParam's body contains no integer conversion that can change a value (text that does not fit the field's type is left to the typed decoder to reject)."),
+          "parseParam's body contains no integer conversion that can change a value (text that does not fit the field's type is left to the typed decoder to reject). tokens.String is proved to be the concatenation of the token texts (length and content), so the text a variable captures is exactly the text of the tokens it covers; Mux.ServeHTTP routes the request path less at most one final slash."),
     note=TRUST + "Assumed, not proved: the trie invariant TrieWf (what addRule builds: well-formed variable patterns, non-nil children, depth bookkeeping), map contents at lookups (assume-at clauses listed in the evidence), parseParam/tokens.String as trusted pure functions, the read-only region of variable pattern arrays, the typed conversions in encoding/json, protojson, base64.",
     ref="DESIGN.md section 5 C01")
 CLAIMED["C02"] = dict(
     text=("Partial proof: capture lengths are exact (the step clauses of variable.index are equalities, so every instantiation of a template is matched "
           "by that template's own edges — the obligation that '{name=books/**}:read' violated before the fix), the path lexer accepts every path made of "
-          "documented characters within the token limit, and search tries the literal edge before any variable (program order in the verified body)."),
-    note=TRUST + "Not decided by contracts: equality of whole tries under permutation of registration order, the sorted-variables invariant of addVariable, search exhaustion as a recursive statement; TrieWf assumed as for C01.",
+          "documented characters within the token limit, and search tries the literal edge before any variable (program order in the verified body). path.search refuses a path only after every variable edge of the node was tried (or a capture failed to convert); findVariable is checked against its body (found by its pattern text); path.clone carries every verb binding, the '*' binding, every literal child and the number of variable edges of the original into the copy, so re-registrations never lose earlier routes."),
+    note=TRUST + "Not decided by contracts: equality of whole tries under permutation of registration order, search exhaustion as a recursive statement over the whole subtree (the per-node statement is proved); TrieWf assumed as for C01.",
     ref="DESIGN.md section 5 C02")
 CLAIMED["C06"] = dict(
     text=("Proof over the abstract byte stream, for all read schedules: the three stream codecs' ReadNext return buffers that are exactly a window of the "
@@ -94,14 +94,14 @@ CLAIMED["C11"] = dict(
     text=("Partial proof. Publication: DropConn stores the state without the connection exactly when it was known and nothing otherwise; RegisterConn stores at most once and never on failure. "
           "Removal: removeHandler forgets the connection (map model) and unregisters a method whose last handler goes away before its rule is deleted; delRule prunes a trie node only when alive() is false and alive() is true for any node with methods, variables or child segments "
           "(dropping one connection cannot remove another service's routes); re-registering a connection with unchanged descriptors removes nothing; addRule on a binding that is already occupied "
-          "(second backend, re-registration, implicit /Service/Method path) compares with the occupying method and never dereferences nil; pickMethodHandler returns one of the handlers registered for the method in the snapshot it is given, never reports a method with a live handler unimplemented, and returns no handler together with an error."),
+          "(second backend, re-registration, implicit /Service/Method path) compares with the occupying method and never dereferences nil; pickMethodHandler returns one of the handlers registered for the method in the snapshot it is given, never reports a method with a live handler unimplemented, and returns no handler together with an error. delRule removes every verb binding, additional binding and '*' binding of an unregistered method and visits every literal and variable subtree (produced-keys sets of its map ranges), alive() counts a '*' binding; path variables, query parameters and body / response_body selectors are applied through the request message's own field descriptors (fieldOf), so a second backend serving the same service or a backend that registers again cannot make a route panic; the three writers clone and publish under the lock (shared with C12)."),
     note=TRUST + "Go maps with string, integer and pointer keys are modelled (has / value / length per map); reflection fetch, descriptor hashing, the random choice among live backends and delivery to a backend are not decided; delRule not removing '*' bindings or additional bindings is outside the property as stated (stale routes answer Unimplemented).",
     ref="DESIGN.md sections 5 C11 and 10.3")
 CLAIMED["C12"] = dict(
     text=("Proof of the sequential copy-on-write discipline: state.clone and path.clone return only freshly allocated state / trie / variable nodes and maps and write nothing that existed before the call "
           "('modifies fresh' frames: every store and map update targets an object allocated by the call; recursion gives every level); the three writers take the lock before loading the snapshot, clone it, "
           "call their mutating helpers on the fresh clone only, and publish with exactly one store on success and none on any error path while holding the lock; serveHTTP / serveGRPC load the state once per request; "
-          "Mux.opts is never written after NewMux and method values never after addRule (scans of every store in the package)."),
+          "Mux.opts is never written after NewMux and method values never after addRule (scans of every store in the package). The copy is faithful: path.clone carries every verb binding, the '*' binding, every literal child and the number of variable edges of the original (proved with the produced-keys sets of its map ranges)."),
     note=TRUST + "Interleavings, the race detector's happens-before and sync.Pool hand-offs are NOT decided (the generator drops goroutines); that this discipline implies atomicity for concurrent readers is an argument on paper (DESIGN 5 C12). Handler slices and method values are shared between snapshots by design (never written in place).",
     ref="DESIGN.md sections 5 C12 and 10.3")
 CLAIMED["C14"] = dict(
